@@ -22,7 +22,7 @@ def queries(ctx):
             if quick and 64 * abs(zs) // {2: 1, 4: 2, 8: 3, 16: 4, 32: 5}[abs(b)] > 44:
                 continue            # > 44 digits: 60-350 s each, thorough tier
             for fn in (0, 1):
-                if fn == 1 and zs != 0 and not (abs(zs) == 1 and abs(b) in (16, 32)):
+                if fn == 1 and zs != 0 and not (not quick and abs(zs) == 1 and abs(b) in (16, 32)):      # quick: NULL-buffer path only for zero (one-limb operands: no verdict in 600 s on the unchanged tree -> thorough tier)
                     continue        # allocation of a data-dependent byte count: measured out of the memory budget beyond one limb / small digit counts
                 add("mpz_get_str.base%d.zs%d.fn%d" % (b, zs, fn), "C06_get_str.c", gu, {"BASE": "(%d)" % b, "ZS": "(%d)" % zs, "FN": fn}, 64 * abs(zs) // {2: 1, 4: 2, 8: 3, 16: 4, 32: 5}[abs(b)] + 10, ["mpz/get_str.c:mpz_get_str", G + "get_str.c:mpn_get_str"],
                     hunwind=64 * abs(zs) + 24, timeout=600)
